@@ -712,6 +712,13 @@ func makeIntrinsics() map[string]intrinsic {
 	m[V+"SDKContext"] = func(st *State, fr *frame, a []value, cc *ssa.CallCommon) value {
 		return &opaque{tag: "sdkctx", id: envOf(a[0])}
 	}
+	// the block the harness context stands in (verif.NewEnv: header height 0, chain id "", deliver mode)
+	sdkCtx := "(github.com/cosmos/cosmos-sdk/types.Context)."
+	m[sdkCtx+"BlockHeight"] = func(st *State, fr *frame, a []value, cc *ssa.CallCommon) value { return BVConstI(0, 64) }
+	m[sdkCtx+"ChainID"] = func(st *State, fr *frame, a []value, cc *ssa.CallCommon) value { return StrConst("") }
+	for _, n := range []string{"IsCheckTx", "IsReCheckTx", "IsSigverifyTx"} {
+		m[sdkCtx+n] = func(st *State, fr *frame, a []value, cc *ssa.CallCommon) value { return False }
+	}
 	m[V+"NewEnv"] = func(st *State, fr *frame, a []value, cc *ssa.CallCommon) value {
 		st.envN++
 		return tuple{iface{t: errObjType, v: &opaque{tag: "ctx", id: st.envN}}, iface{t: errObjType, v: &opaque{tag: "storesvc", id: st.envN}}}
@@ -1594,18 +1601,78 @@ func makeIntrinsics() map[string]intrinsic {
 		if in.Blob != nil {
 			return in // encoded documents / decimal renderings are never blank
 		}
-		// symbolic bytes: decide "blank" exactly (ASCII white space; non-ASCII bytes are not white space for the
-		// purposes of the emptiness tests this is used for), otherwise return the string untrimmed
-		blank := True
-		for i, b := range in.B {
-			sp := Or(Eq(b, BVConstI(' ', 8)), And(BVCmp("bvuge", b, BVConstI(9, 8)), BVCmp("bvule", b, BVConstI(13, 8))))
-			blank = And(blank, Or(Not(BVCmp("bvult", BVConstI(int64(i), 64), in.Len)), sp))
+		// symbolic bytes: exact for ASCII white space. lead = number of leading white-space bytes, trail = number of
+		// trailing ones in what remains; the result is the substring at the symbolic offset lead. Where the byte at
+		// either trim boundary could begin / end a multi-byte Unicode space (Go then switches to the Unicode scan), the
+		// path ends unsupported and is decided natively.
+		n := len(in.B)
+		ws := func(b *Term) *Term {
+			return Or(Eq(b, BVConstI(' ', 8)), And(BVCmp("bvuge", b, BVConstI(9, 8)), BVCmp("bvule", b, BVConstI(13, 8))))
 		}
-		if st.decide(blank) {
-			return StrConst("")
+		inLen := func(i int) *Term { return BVCmp("bvult", BVConstI(int64(i), 64), in.Len) }
+		sel := func(idx *Term) *Term { // in.B[idx] for a symbolic index (0 outside)
+			r := BVConstI(0, 8)
+			for i := n - 1; i >= 0; i-- {
+				r = Ite(Eq(idx, BVConstI(int64(i), 64)), in.B[i], r)
+			}
+			return r
 		}
-		// not blank: the callers in scope only test the result for emptiness or pass the ORIGINAL string on
-		return in
+		zero64 := BVConstI(0, 64)
+		var lead *Term
+		leadC := -1 // concrete number of leading white-space bytes (short strings: decided by forking, so that the result's bytes are the input's bytes and not selections at a symbolic offset)
+		if n <= 16 {
+			leadC = 0
+			for leadC < n && st.decide(And(inLen(leadC), ws(in.B[leadC]))) {
+				leadC++
+			}
+			lead = BVConstI(int64(leadC), 64)
+		} else {
+			// lead is the unique L with: L <= len, bytes below L are white space, the byte at L (if any) is not.
+			// Introduced as a fresh variable with these defining constraints (linear size) instead of a nested term.
+			lead = st.freshVar("trim_lead", BV(64))
+			st.assume(BVCmp("bvule", lead, in.Len))
+			st.assume(BVCmp("bvule", lead, BVConstI(int64(n), 64))) // bytes beyond the modelled ones read as 0: not white space
+			for i := 0; i < n; i++ {
+				st.assume(Or(Not(BVCmp("bvult", BVConstI(int64(i), 64), lead)), ws(in.B[i])))
+			}
+			st.assume(Or(Not(BVCmp("bvult", lead, in.Len)), Not(ws(sel(lead)))))
+		}
+		// trail is the unique T with: lead+T <= len, the last T bytes are white space, the byte before them (if it is
+		// to the right of the leading run) is not.
+		trail := st.freshVar("trim_trail", BV(64))
+		st.assume(BVCmp("bvule", trail, BVBin("bvsub", in.Len, lead)))
+		st.assume(Or(BVCmp("bvule", in.Len, BVConstI(int64(n), 64)), Eq(trail, zero64)))
+		cut := BVBin("bvsub", in.Len, trail) // index of the first trimmed trailing byte
+		for i := 0; i < n; i++ {
+			ci := BVConstI(int64(i), 64)
+			st.assume(Or(Not(And(BVCmp("bvuge", ci, cut), BVCmp("bvult", ci, in.Len))), ws(in.B[i])))
+		}
+		st.assume(Or(Not(BVCmp("bvult", lead, cut)), Not(ws(sel(BVBin("bvsub", cut, BVConstI(1, 64)))))))
+		outLen := BVBin("bvsub", BVBin("bvsub", in.Len, lead), trail)
+		nonEmpty := Not(Eq(outLen, zero64))
+		first := sel(lead)
+		last := sel(BVBin("bvsub", cut, BVConstI(1, 64)))
+		isAny := func(b *Term, vals ...int64) *Term {
+			r := False
+			for _, v := range vals {
+				r = Or(r, Eq(b, BVConstI(v, 8)))
+			}
+			return r
+		}
+		uniLead := isAny(first, 0xC2, 0xE1, 0xE2, 0xE3)
+		uniTrail := Or(And(BVCmp("bvuge", last, BVConstI(0x80, 8)), BVCmp("bvule", last, BVConstI(0x8A, 8))), isAny(last, 0x9F, 0xA0, 0xA8, 0xA9, 0xAF))
+		if st.decide(And(nonEmpty, Or(uniLead, uniTrail))) {
+			panic(pathEnd{kind: "unsupported", msg: "strings.TrimSpace with a possible multi-byte Unicode space at the trim boundary"})
+		}
+		out := &Str{Len: outLen}
+		if leadC >= 0 {
+			out.B = append(out.B, in.B[leadC:]...)
+			return out
+		}
+		for i := 0; i < n; i++ {
+			out.B = append(out.B, sel(BVBin("bvadd", lead, BVConstI(int64(i), 64))))
+		}
+		return out
 	}
 	m["("+C+"Item[V]).Get"] = func(st *State, fr *frame, a []value, cc *ssa.CallCommon) value {
 		vt := st.curFn.Signature.Results().At(0).Type()
